@@ -3,6 +3,8 @@ pub mod alu;
 pub mod asm;
 pub mod board;
 pub mod bus;
+pub mod cmd;
+pub mod edit;
 pub mod isa;
 pub mod mrasm;
 pub mod peg;
